@@ -49,6 +49,8 @@ type stageResult struct {
 	Inner string `json:"inner,omitempty"` // innermost getlantern frame of a panic (may be a library)
 	Phase string `json:"phase,omitempty"` // "exec" when the panic happened while iterating a plan
 	N     int    `json:"n,omitempty"`     // size of what the stage produced: number of fields (fields, plan, cluster, query)
+	// parse stage only: "rejected" when the error is the pre-scan's ErrUnterminatedIdentifier
+	Prescan string `json:"prescan,omitempty"`
 }
 
 // thirdPartyEval says whether a panic came out of a goexpr expression while a
@@ -542,11 +544,22 @@ func runPure(sqlString string, mult time.Duration) *sqlOutcome {
 	// Parsing is pure CPU work on a short string (microseconds); a goroutine
 	// that is still busy after parseTimeout is spinning, cannot be stopped and
 	// may be allocating, so the remaining stages are not run.
+	prescan := ""
 	o.Parse = guarded(parseTimeout, func() error {
 		var err error
 		q, err = sql.Parse(sqlString)
+		if err != nil && strings.Contains(err.Error(), sql.ErrUnterminatedIdentifier.Error()) {
+			// sql.Parse wraps the verdict of the pre-scan on the client's text exactly once; anything
+			// else is a later re-parse of text sql.go printed from the AST (HAVING / select list)
+			if err.Error() == fmt.Sprintf("Error parsing %v: %v", sqlString, sql.ErrUnterminatedIdentifier) {
+				prescan = "rejected"
+			} else {
+				prescan = "inner-rejected"
+			}
+		}
 		return err
 	})
+	o.Parse.Prescan = prescan
 	if o.Parse.Class == clsHang {
 		return o
 	}
